@@ -1,26 +1,32 @@
 """Value-level machinery of the C20 rules (helper module of verifier/c20.py).
 
- * `World` + `Ev`   an AutoEvaluator that knows the scipy distribution functions of pyyeti/stats.py in one canonical form, follows calls to
-                    module-level helpers, nested functions, closures and lambdas (functions are values: they can be passed as arguments),
-                    understands the "apply f element-wise to the broadcast operands" construct in its four spellings (list comprehension over
-                    `np.broadcast`, for/append loop, index loop over `.flat`, a `_fill_broadcast(func, *operands)` helper), records every
-                    `brentq` call with the residual it is handed (named function + args=, closure, lambda) and enumerates the paths through
-                    undecided tests (early returns, inverted conditions, conditional expressions);
+ * `World` + `Ev`   an AutoEvaluator that knows the scipy distribution functions of pyyeti/stats.py in one canonical form (positional / keyword /
+                    frozen-distribution / scipy.special spellings, callables resolved by value through imports, aliases and module constants),
+                    follows calls to module-level helpers, nested functions, closures, lambdas and functools.partial objects (functions are values:
+                    they can be passed as arguments, stored in a table and looked up by a string known by value), understands "apply f element-wise
+                    to the broadcast operands and collect the results" as ONE construct (`element`: comprehension, generator + np.fromiter, for/append,
+                    `.flat[i]` / `ravel()[i]` stores through any alias of the view with an enumerate / zip(range) / hand-kept / range(len) index, `map`,
+                    `itertools.starmap`, `np.vectorize`, helper functions doing any of these), records every `brentq` call with the residual it is
+                    handed and enumerates the paths through undecided tests (early returns, inverted conditions, conditional expressions, `match`,
+                    break / continue);
  * `literals`       sign information carried by a test *value* (`f(b) < 0`, `not (f(b) < 0)`, `0 <= f(a)`, `x >= 0 or loops == 30`);
- * `Bracket`        abstract execution of the function holding a `brentq` call: which points have had the sign of the residual tested when the
-                    root finder is reached (if / early return / while / while True + break / for-range + break, values not names).
+ * `Bracket`        abstract execution of the function holding a `brentq` call (or of a caller of it, helpers with control flow of their own are
+                    executed too): which points have had the sign of the residual tested when the root finder is reached (if / conditional
+                    expression / early return / while / while True + break / for-range + break / continue, values not names; pass counters are
+                    recognised by value: `k += 1`, `k = 1 + k`, a component of a tuple assignment, limits that are literals, constants or parameters).
 
 Nothing here looks at how a statement is spelled: names are resolved through the module's imports and the environment, temporaries are substituted.
 """
 from __future__ import annotations
 
 import ast
+import copy
 from fractions import Fraction
 
 from . import e2_formula as F
 from .core import Unsupported
 from .e1_srcmodel import dotted, walk_no_nested
-from .e2_eval import AutoEvaluator, Unknown, _assigned_names, is_unknown, need
+from .e2_eval import AutoEvaluator, DictValue, Unknown, _assigned_names, is_unknown, need
 from .sem import place, unfn
 
 STATS = "pyyeti/stats.py"
@@ -34,6 +40,10 @@ SIG = {
     "scipy.stats.binom.isf": ("q", "n", "p"),
     "scipy.special.betainc": ("a", "b", "x"),
 }
+# other spellings of the same library functions
+ALIAS = {"scipy.special.ndtri": "scipy.stats.norm.ppf", "scipy.special.ndtr": "scipy.stats.norm.cdf", "scipy.special.bdtr": "scipy.stats.binom.cdf",
+         "scipy.special.bdtrc": "scipy.stats.binom.sf", "scipy.stats.distributions.norm.ppf": "scipy.stats.norm.ppf",
+         "scipy.optimize.zeros.brentq": "scipy.optimize.brentq"}
 BRENTQ_SIG = ["f", "a", "b", "args", "xtol", "rtol", "maxiter", "full_output", "disp"]
 ROUNDERS = {"numpy.ceil": "ceil", "math.ceil": "ceil", "numpy.floor": "floor", "math.floor": "floor", "numpy.rint": "rint", "numpy.round": "round",
             "numpy.around": "round", "round": "round", "numpy.trunc": "trunc", "math.trunc": "trunc", "numpy.fix": "trunc"}
@@ -43,14 +53,21 @@ RELS = ("le0", "ge0")
 
 
 def imports(mod):
+    """local name -> dotted library name; imports made inside a function count too (module-level ones win)"""
     tab = {}
-    for st in mod.tree.body:
+
+    def take(st):
         if isinstance(st, ast.Import):
             for a in st.names:
-                tab[a.asname or a.name.split(".")[0]] = a.name if a.asname else a.name.split(".")[0]
-        elif isinstance(st, ast.ImportFrom) and st.module:
+                tab.setdefault(a.asname or a.name.split(".")[0], a.name if a.asname else a.name.split(".")[0])
+        elif isinstance(st, ast.ImportFrom) and st.module and not st.level:
             for a in st.names:
-                tab[a.asname or a.name] = f"{st.module}.{a.name}"
+                tab.setdefault(a.asname or a.name, f"{st.module}.{a.name}")
+
+    for st in mod.tree.body:
+        take(st)
+    for st in ast.walk(mod.tree):
+        take(st)
     return tab
 
 
@@ -65,7 +82,7 @@ def resolve(d, tab):
 
 
 def rat(v):
-    return v is not None and not is_unknown(v) and not isinstance(v, tuple)
+    return isinstance(v, F.Rat)
 
 
 def symname(v):
@@ -142,6 +159,87 @@ def same(a, b):
 
 
 # ---------------------------------------------------------------------------------------------------------------------------------
+# "apply f element-wise over the broadcast operands and collect the results into an array" is ONE construct.  An iterable value has a
+# *generic element*: np.broadcast(c, r, p) -> (c, r, p); enumerate(it) -> (<i>, element of it); each(v) (a collected sequence) -> v;
+# zip(range(n), it) -> (<i>, element).  A comprehension, a for loop that appends / stores into `.flat[i]`, `map`, `itertools.starmap`,
+# `np.vectorize(f)(...)`, `np.fromiter` and helper functions that do any of these all produce each(value of f on the generic element).
+INDEX = "<i>"
+
+
+def element(v):
+    """generic element of an iterable value (a formula, or a tuple of elements), None when the value is not such an iterable"""
+    u = unfn(v) if rat(v) else None
+    if not u or any(not isinstance(a, F.Rat) for a in u[1]):
+        return None
+    name, args = u
+    if name == "broadcast":
+        return tuple(args)
+    if name == "each" and len(args) == 1:
+        return args[0]
+    if name == "enumerate" and len(args) == 1:
+        e = element(args[0])
+        return None if e is None else (F.sym(INDEX), e)
+    if name == "range0" and len(args) == 1:
+        # range(len(seq)) / range(b.size): the running index over the elements of seq
+        ua = unfn(args[0])
+        if ua and ua[0] in ("count", "attr:size") and len(ua[1]) == 1 and isinstance(ua[1][0], F.Rat) and element(ua[1][0]) is not None:
+            return F.sym(INDEX)
+        return None
+    if name == "zip" and args:
+        # zip(range(n), it): the running index next to the element
+        es = [F.sym(INDEX) if (unfn(a) or ("",))[0] == "range0" else element(a) for a in args]
+        if any(e is None for e in es) or all(not isinstance(e, tuple) and symname(e) == INDEX for e in es):
+            return None
+        return tuple(es)
+    return None
+
+
+def is_buffer(v):
+    return (symname(v) or "").startswith("<buffer@")
+
+
+def flat_view_of(v):
+    """value of `X.flat` / `X.ravel()` / `X.reshape(-1)` for a freshly allocated array X -> the symbol of X, else None"""
+    u = unfn(v) if rat(v) else None
+    if u and u[0] in ("attr:flat", "flatview") and len(u[1]) == 1 and is_buffer(u[1][0]):
+        return symname(u[1][0])
+    return None
+
+
+def match_as_if(st):
+    """`match s: case 'a': .. case 'b' | 'c': .. case _: ..` (literal patterns only) -> the if / elif chain it abbreviates, else None"""
+    def test_of(pat):
+        if isinstance(pat, ast.MatchValue):
+            return ast.Compare(left=st.subject, ops=[ast.Eq()], comparators=[pat.value])
+        if isinstance(pat, ast.MatchSingleton):
+            return ast.Compare(left=st.subject, ops=[ast.Is()], comparators=[ast.Constant(value=pat.value)])
+        if isinstance(pat, ast.MatchOr) and all(isinstance(q, ast.MatchValue) for q in pat.patterns):
+            return ast.Compare(left=st.subject, ops=[ast.In()], comparators=[ast.Tuple(elts=[q.value for q in pat.patterns], ctx=ast.Load())])
+        return None
+
+    chain = []
+    for case in st.cases:
+        if isinstance(case.pattern, ast.MatchAs) and case.pattern.pattern is None and case.pattern.name is None:
+            t = ast.Constant(value=True)
+        else:
+            t = test_of(case.pattern)
+        if t is None:
+            return None
+        if case.guard is not None:
+            t = case.guard if isinstance(t, ast.Constant) else ast.BoolOp(op=ast.And(), values=[t, case.guard])
+        chain.append((t, case.body))
+    tail = []
+    for t, body in reversed(chain):
+        if isinstance(t, ast.Constant):
+            tail = list(body)
+        else:
+            tail = [ast.fix_missing_locations(ast.copy_location(ast.If(test=ast.copy_location(t, st), body=list(body), orelse=tail), body[0]))]
+    if len(tail) == 1 and isinstance(tail[0], ast.If):
+        return tail[0]
+    return ast.fix_missing_locations(ast.copy_location(ast.If(test=ast.Constant(value=True), body=tail or [ast.Pass()], orelse=[]), st))
+
+
+# ---------------------------------------------------------------------------------------------------------------------------------
 class World:
     """what one rule evaluation shares between its evaluators: import table, module functions and constants, function values, oracle,
     records of brentq calls / helper applications / decisions"""
@@ -163,15 +261,28 @@ class World:
         self.rootsyms = {}
         self.arm = None
         self.modenv = {}
+        self._match = {}
         ev = Ev(self)
         for st in self.mod.tree.body:
-            if isinstance(st, (ast.Assign, ast.AnnAssign)) and all(isinstance(t, ast.Name) for t in (st.targets if isinstance(st, ast.Assign) else [st.target])):
+            if isinstance(st, (ast.Assign, ast.AnnAssign)) and all(isinstance(t, ast.Name) or (isinstance(t, (ast.Tuple, ast.List)) and all(isinstance(x, ast.Name) for x in t.elts))
+                                                                  for t in (st.targets if isinstance(st, ast.Assign) else [st.target])):
                 if getattr(st, "value", None) is not None:
                     ev.stmt(st)
         self.modenv = {k: v for k, v in ev.env.items() if not k.startswith("<")}
 
     # ---- oracle
     def decide_base(self, test, ev):
+        if isinstance(test, ast.Constant) and isinstance(test.value, (bool, int)):
+            return bool(test.value)
+        if isinstance(test, ast.Compare) and len(test.ops) == 1 and isinstance(test.ops[0], (ast.Is, ast.IsNot, ast.Eq, ast.NotEq)):
+            # `x is None` for a name whose value is known (a defaulted parameter that was / was not passed)
+            a, b = test.left, test.comparators[0]
+            for x, y in ((a, b), (b, a)):
+                if isinstance(y, ast.Constant) and y.value is None and isinstance(x, ast.Name) and x.id in ev.env:
+                    v = ev.env[x.id]
+                    r = True if symname(v) == "None" else (False if isinstance(v, tuple) or const_value(v) is not None or (symname(v) or "").startswith("<") else None)
+                    if r is not None:
+                        return r if isinstance(test.ops[0], (ast.Is, ast.Eq)) else not r
         if self.base is None:
             return None
         r = self.base(test, ev)
@@ -204,6 +315,11 @@ class World:
         self.taken.append(None)          # reserve the slot: evaluating the test may itself meet tests
         self.taken[k] = (val, ev.ev(test), test)
         return val
+
+    def match_if(self, st):
+        if id(st) not in self._match:
+            self._match[id(st)] = (match_as_if(st), st)
+        return self._match[id(st)][0]
 
     # ---- functions as values
     def register(self, node, ev, name):
@@ -239,15 +355,13 @@ class World:
             d = s + ("." + rest if rest else "")
         return d
 
-    def apply(self, fnode, defev, pos, kw, caller, name, node=None, record=True):
-        if caller.depth >= 8:
-            return Unknown("call depth")
+    def bind(self, fnode, defev, pos, kw, name):
+        """environment of a call: the defining scope's names, parameters bound by position, keyword and default"""
         a = fnode.args
         cl = dict(defev.env) if defev is not None else {}
         env = dict(cl)
         params = [x.arg for x in a.posonlyargs + a.args]
         pos = list(pos)
-        allpos = list(pos)
         if len(pos) > len(params):
             if a.vararg is None:
                 return Unknown(f"{name}: too many positional arguments")
@@ -276,7 +390,17 @@ class World:
                 bound.add(p_)
         if any(p_ not in bound for p_ in params + kwonly):
             return Unknown(f"{name}: missing argument")
+        return env
+
+    def apply(self, fnode, defev, pos, kw, caller, name, node=None, record=True):
+        if caller.depth >= 8:
+            return Unknown("call depth")
+        allpos = list(pos)
+        env = self.bind(fnode, defev, pos, kw, name)
+        if is_unknown(env):
+            return env
         sub = Ev(self, env=env, fnode=fnode, depth=caller.depth + 1)
+        sub.parent = caller
         if isinstance(fnode, ast.Lambda):
             v = sub.ev(fnode.body)
         else:
@@ -293,8 +417,28 @@ class World:
         return v
 
     # ---- calls
+    def synth(self, func, ev, bind, starred=False, keywords=()):
+        """value of `func(<bound values>)`: the call is built as a node over placeholder names and evaluated like any other call, so a
+        function that is applied by `map`, `starmap`, `np.vectorize` ... goes through exactly the machinery of a direct call"""
+        c = ev.child()
+        args = []
+        for k, v in enumerate(bind):
+            nm = f"<arg{k}>"
+            c.env[nm] = v
+            x = ast.Name(id=nm, ctx=ast.Load())
+            args.append(ast.Starred(value=x, ctx=ast.Load()) if starred else x)
+        if not isinstance(func, ast.AST):
+            c.env["<callee>"] = func
+            func = ast.Name(id="<callee>", ctx=ast.Load())
+        call = ast.fix_missing_locations(ast.copy_location(ast.Call(func=func, args=args, keywords=list(keywords)), ev.at or func))
+        v = c.ev(call)
+        if c.raised:
+            ev.raised = ev.done = True
+        return v
+
     def call(self, node, ev):
         func = node.func
+        ev.at = node
         if isinstance(func, ast.Attribute):
             at = func.attr
             if at == "append" and isinstance(func.value, ast.Name) and ev.appends is not None and len(node.args) == 1 and not node.keywords:
@@ -304,16 +448,46 @@ class World:
                     return F.sym("None")
             if at in ("any", "all") and not node.args and not node.keywords:
                 return F.fn(at, need(ev.ev(func.value)))
+            if at in ("max", "min") and not node.args and not node.keywords:
+                return F.fn("a" + at, need(ev.ev(func.value)))
             if at == "item" and not node.args and not node.keywords:
                 return ev.ev(func.value)
+            if at == "get" and isinstance(func.value, ast.Name) and 1 <= len(node.args) <= 2 and not node.keywords:
+                base = ev.env.get(func.value.id, self.modenv.get(func.value.id))
+                if isinstance(base, DictValue):
+                    return self.lookup(base, ev.ev(node.args[0]), ev.ev(node.args[1]) if len(node.args) == 2 else F.sym("None"))
             if at == "astype" and len(node.args) == 1 and not node.keywords:
                 recv = ev.ev(func.value)
                 if resolve(dotted(node.args[0]), self.tab) in INT_TYPES:
                     return F.fn("int", need(recv))
                 return recv
+            if at in ("ravel", "reshape") and not node.keywords:
+                recv = ev.ev(func.value)
+                if is_buffer(recv) and (at == "ravel" or (len(node.args) == 1 and const_value(ev.ev(node.args[0])) == -1)):
+                    return F.fn("flatview", recv)          # a view of the new array in flat order
+                if element(recv) is not None or is_buffer(recv):
+                    return recv                              # the same elements in another shape
         nm = self.callee_name(func, ev)
         if nm is None:
-            return NotImplemented
+            # the callee as a value: np.vectorize(f), a frozen distribution's method, a function taken from a table
+            if isinstance(func, ast.Attribute):
+                u = unfn(ev.ev(func.value))
+                if u and u[0].startswith("frozen:") and all(isinstance(a, F.Rat) for a in u[1]):
+                    pos, kw = ev.args(node)
+                    return self.lib(f"scipy.stats.{u[0][7:]}.{func.attr}", node, ev, argv=(list(pos[:1]) + list(u[1]) + list(pos[1:]), kw))
+                return NotImplemented
+            fv = ev.ev(func)
+            u = unfn(fv)
+            if u and u[0] == "vectorized" and len(u[1]) == 1 and isinstance(u[1][0], F.Rat) and not any(isinstance(a, ast.Starred) for a in node.args):
+                c = ev.child()
+                c.env["<callee>"] = u[1][0]
+                v = c.ev(ast.copy_location(ast.Call(func=ast.copy_location(ast.Name(id="<callee>", ctx=ast.Load()), node), args=node.args, keywords=node.keywords), node))
+                if c.raised:
+                    ev.raised = ev.done = True
+                return F.fn("each", need(v, "np.vectorize result"))
+            nm = symname(fv)
+            if nm is None:
+                return NotImplemented
         if self.extra is not None:
             r = self.extra(nm, node, ev)
             if r is not NotImplemented:
@@ -324,14 +498,73 @@ class World:
             return self.apply(f[0], f[1], pos, kw, ev, nm, node)
         return self.lib(resolve(nm, self.tab), node, ev)
 
-    def lib(self, d, node, ev):
-        """scipy distribution functions become opaque applications in a canonical form (sf -> 1 - cdf, isf(q) -> ppf(1 - q), the regularised
-        incomplete beta function with integer-shaped arguments -> the binomial cdf it equals)"""
-        one = lambda: need(ev.args(node)[0][0])      # noqa
-        if d in ("numpy.asarray", "numpy.atleast_1d", "numpy.array", "float", "numpy.float64", "numpy.asanyarray"):
-            return ev.args(node)[0][0]
+    def lib(self, d, node, ev, argv=None):
+        """library callables.  scipy distribution functions become opaque applications in a canonical form (sf -> 1 - cdf, isf(q) -> ppf(1 - q),
+        the regularised incomplete beta function with integer-shaped arguments -> the binomial cdf it equals)"""
+        cache = []
+        d = ALIAS.get(d, d)
+
+        def args():
+            if not cache:
+                cache.append(argv if argv is not None else ev.args(node))
+            return cache[0]
+
+        nargs = len(node.args) if argv is None else len(argv[0])
+        one = lambda: need(args()[0][0])      # noqa
+        if d in ("numpy.asarray", "numpy.atleast_1d", "numpy.array", "float", "numpy.float64", "numpy.asanyarray", "numpy.ascontiguousarray"):
+            return args()[0][0]
+        if d == "numpy.copyto" and nargs == 2 and not node.keywords:
+            dst, src_ = args()[0]
+            if is_buffer(dst) and rat(src_) and element(src_) is not None and rat(element(src_)):
+                ev._fill(symname(dst), src_)
+                return F.sym("None")
+            return NotImplemented
+        if d == "numpy.broadcast_arrays" and not node.keywords:
+            return tuple(args()[0])          # element-wise the operands themselves
+        if d in ("list", "tuple", "iter", "numpy.fromiter", "numpy.reshape", "numpy.ravel") and nargs >= 1:
+            v = args()[0][0]
+            if isinstance(v, tuple) or element(v) is not None:
+                return v                     # the same elements, collected / reshaped
+            return NotImplemented
+        if d in ("map", "itertools.starmap") and nargs >= 2 and not node.keywords and argv is None \
+                and not any(isinstance(a, ast.Starred) for a in node.args):
+            els = [element(ev.ev(a)) for a in node.args[1:]]
+            if any(e is None for e in els) or (d != "map" and len(els) != 1):
+                return NotImplemented
+            v = self.synth(node.args[0], ev, els, starred=(d != "map"))
+            return F.fn("each", need(v, "mapped function"))
+        if d == "functools.partial" and argv is None and node.args and not any(k.arg is None for k in node.keywords):
+            # partial(f, x, k=y) is  lambda *rest: f(x, *rest, k=y)
+            rest = ast.Starred(value=ast.Name(id="<rest>", ctx=ast.Load()), ctx=ast.Load())
+            lam = ast.Lambda(args=ast.arguments(posonlyargs=[], args=[], vararg=ast.arg(arg="<rest>"), kwonlyargs=[], kw_defaults=[], kwarg=None, defaults=[]),
+                             body=ast.Call(func=node.args[0], args=list(node.args[1:]) + [rest], keywords=list(node.keywords)))
+            return self.register(ast.fix_missing_locations(ast.copy_location(lam, node)), ev, "partial")
+        if d in ("numpy.vectorize", "numpy.frompyfunc") and nargs >= 1:
+            fv = args()[0][0]
+            if symname(fv) is None:
+                return NotImplemented
+            return F.fn("vectorized", fv)
+        if d == "zip" and nargs >= 1 and not node.keywords:
+            vs = args()[0]
+            if all(rat(v) and (element(v) is not None or (unfn(v) or ("",))[0] == "range0") for v in vs):
+                return F.fn("zip", *vs)
+            return NotImplemented
+        if d == "range" and nargs == 1:
+            return F.fn("range0", one())
+        if d == "len" and nargs == 1:
+            v = args()[0][0]
+            if isinstance(v, tuple):
+                return F.const(len(v))
+            if rat(v) and element(v) is not None:
+                return F.fn("count", v)
+            return NotImplemented
         if d == "int":
             return F.fn("int", one())
+        if d in UFUNC2 and nargs == 2 and not node.keywords:
+            pos, kw = args()
+            return UFUNC2[d](need(pos[0]), need(pos[1]))
+        if d in UFUNC1 and nargs == 1 and not node.keywords:
+            return UFUNC1[d](one())
         if d in ("numpy.sqrt", "math.sqrt"):
             return F.sqrt(one())
         if d in ("numpy.exp", "math.exp"):
@@ -340,43 +573,52 @@ class World:
             return F.fn("abs", one())
         if d in ("numpy.any", "numpy.all"):
             return F.fn(d.rsplit(".", 1)[1], one())
-        if d in ("any", "all") and len(node.args) == 1:
+        if d in ("any", "all") and nargs == 1:
             return F.fn(d, one())
-        if d in ROUNDERS and len(node.args) == 1:
+        if d in ("numpy.max", "numpy.amax", "numpy.min", "numpy.amin", "numpy.nanmax", "max", "min") and nargs == 1 and not node.keywords:
+            return F.fn("amax" if d.endswith("max") else "amin", one())
+        if d in ROUNDERS and nargs == 1:
             return F.fn(ROUNDERS[d], one())
         if d in ("numpy.empty", "numpy.zeros", "numpy.empty_like", "numpy.zeros_like", "numpy.ones", "numpy.ones_like", "numpy.full", "numpy.full_like",
                  "numpy.ndarray"):
             return F.sym(f"<buffer@{node.lineno}>")
         if d == "numpy.broadcast":
-            pos, kw = ev.args(node)
+            pos, kw = args()
             return F.fn("broadcast", *[need(x) for x in pos])
-        if d == "enumerate" and len(node.args) == 1:
+        if d == "numpy.nditer" and nargs >= 1 and isinstance(args()[0][0], tuple):
+            return F.fn("broadcast", *[need(x) for x in args()[0][0]])          # element-wise over the broadcast operands, too
+        if d == "enumerate" and nargs == 1 and not node.keywords:
             return F.fn("enumerate", one())
         if d == "numpy.clip":
-            pos, kw = ev.args(node)
+            pos, kw = args()
             v = place(pos, kw, ["a", "a_min", "a_max"])
             return F.fn("clip", need(v["a"]), need(v.get("a_min", F.sym("None"))), need(v.get("a_max", F.sym("None"))))
-        if d in ("numpy.minimum", "numpy.maximum", "numpy.fmin", "numpy.fmax", "min", "max") and len(node.args) == 2 and not node.keywords:
-            pos, kw = ev.args(node)
+        if d in ("numpy.minimum", "numpy.maximum", "numpy.fmin", "numpy.fmax", "min", "max") and nargs == 2 and not node.keywords:
+            pos, kw = args()
             x, y = sorted((need(pos[0]), need(pos[1])), key=repr)
             return F.fn("min" if d.endswith(("min", "minimum")) else "max", x, y)
         if d == "scipy.optimize.brentq":
             return self._brentq(node, ev)
-        if d not in SIG:
+        frozen = f"{d}.ppf" in SIG and d.startswith("scipy.stats.")          # norm(), binom(n, p): a frozen distribution
+        if d not in SIG and not frozen:
             return NotImplemented
-        names = SIG[d]
-        pos, kw = ev.args(node)
+        names = SIG[d] if not frozen else SIG[f"{d}.ppf"][1:]
+        pos, kw = args()
         if len(pos) > len(names):
             raise Unsupported(f"{d}: too many positional arguments")
         vals = {}
         for nm, v in zip(names, pos):
             vals[nm] = need(v, nm)
         for k, v in kw.items():
+            if k in ("loc", "scale") and d.startswith("scipy.stats.") and const_value(v) == (0 if k == "loc" else 1):
+                continue                     # the defaults, spelled out
             if k not in names or k in vals:
                 raise Unsupported(f"{d}: keyword {k}")
             vals[k] = need(v, k)
         if set(vals) != set(names):
             raise Unsupported(f"{d}: arguments {sorted(vals)}")
+        if frozen:
+            return F.fn("frozen:" + d.rsplit(".", 1)[1], *[vals[n] for n in names])
         dist, meth = d.rsplit(".", 1)
         dist = dist.rsplit(".", 1)[1] if "." in dist else dist
         if d == "scipy.special.betainc":
@@ -410,7 +652,67 @@ class World:
     def subscript(self, node, ev):
         if isinstance(node.slice, ast.Tuple) and not node.slice.elts:      # x[()] : the scalar of a 0-d array
             return ev._ev(node.value)
+        if isinstance(node.value, (ast.Name, ast.Dict)) and not isinstance(node.slice, (ast.Constant, ast.Slice, ast.Tuple)):
+            base = ev.env.get(node.value.id, self.modenv.get(node.value.id)) if isinstance(node.value, ast.Name) else ev.ev(node.value)
+            if isinstance(base, DictValue):
+                return self.lookup(base, ev.ev(node.slice))
+        if isinstance(node.slice, ast.Name) and symname(ev.env.get(node.slice.id)) == INDEX:
+            # seq[i] with i the running index over seq: the generic element
+            base = ev.ev(node.value)
+            el = element(base) if rat(base) else None
+            if el is not None and flat_view_of(base) is None:
+                return el
         return NotImplemented
+
+    @staticmethod
+    def lookup(table, key, default=None):
+        """TABLE[key] for a literal table and a key known by value (a string)"""
+        k = symname(key)
+        if k and k[:1] in "'\"":
+            try:
+                k = ast.literal_eval(k)
+            except (ValueError, SyntaxError):
+                return Unknown("table key")
+            if k in table.d:
+                return table.d[k]
+            return default if default is not None else Unknown(f"key {k!r} not in the literal table")
+        return Unknown("table key is not known by value")
+
+
+def _power(a, b):
+    if b.is_const() and b.const_value() == Fraction(1, 2):
+        return F.sqrt(a)
+    if b.is_const() and b.const_value() == Fraction(-1, 2):
+        return 1 / F.sqrt(a)
+    return a ** b
+
+
+# arithmetic spelled as numpy functions
+UFUNC2 = {"numpy.add": lambda a, b: a + b, "numpy.subtract": lambda a, b: a - b, "numpy.multiply": lambda a, b: a * b,
+          "numpy.divide": lambda a, b: a / b, "numpy.true_divide": lambda a, b: a / b, "numpy.power": _power, "numpy.float_power": _power,
+          "math.pow": _power, "operator.add": lambda a, b: a + b, "operator.sub": lambda a, b: a - b, "operator.mul": lambda a, b: a * b,
+          "operator.truediv": lambda a, b: a / b}
+for _nm, _op in (("greater", "Gt"), ("greater_equal", "GtE"), ("less", "Lt"), ("less_equal", "LtE"), ("equal", "Eq"), ("not_equal", "NotEq")):
+    UFUNC2["numpy." + _nm] = (lambda op: lambda a, b: F.fn("cmp:" + op, a, b))(_op)
+for _nm, _op in (("gt", "Gt"), ("ge", "GtE"), ("lt", "Lt"), ("le", "LtE")):
+    UFUNC2["operator." + _nm] = (lambda op: lambda a, b: F.fn("cmp:" + op, a, b))(_op)
+UFUNC2["numpy.logical_and"] = lambda a, b: F.fn("bool:And", a, b)
+UFUNC2["numpy.logical_or"] = lambda a, b: F.fn("bool:Or", a, b)
+UFUNC1 = {"numpy.logical_not": lambda a: F.fn("not", a), "operator.not_": lambda a: F.fn("not", a), "numpy.negative": lambda a: -a, "numpy.square": lambda a: a * a, "numpy.reciprocal": lambda a: 1 / a, "numpy.positive": lambda a: a,
+          "operator.neg": lambda a: -a}
+READ_ONLY_METHODS = {"astype", "copy", "item", "any", "all", "max", "min", "sum", "mean", "tolist", "ravel", "reshape", "flatten", "squeeze", "view", "transpose"}
+NAMED_CONSTS = {"numpy.pi": lambda: F.sym("pi"), "math.pi": lambda: F.sym("pi"), "scipy.pi": lambda: F.sym("pi"), "scipy.constants.pi": lambda: F.sym("pi"),
+                "math.tau": lambda: 2 * F.sym("pi")}
+
+
+def _pasted():
+    import math
+    pi = lambda: F.sym("pi")      # noqa
+    return [(math.pi, pi), (2 * math.pi, lambda: 2 * pi()), (math.sqrt(2 * math.pi), lambda: F.sqrt(2 * pi())), (1 / math.sqrt(2 * math.pi), lambda: 1 / F.sqrt(2 * pi())),
+            (math.sqrt(math.pi), lambda: F.sqrt(pi())), (math.sqrt(2), lambda: F.sqrt(F.const(2))), (1 / math.sqrt(2), lambda: 1 / F.sqrt(F.const(2)))]
+
+
+PASTED = _pasted()
 
 
 class Ev(AutoEvaluator):
@@ -421,13 +723,28 @@ class Ev(AutoEvaluator):
         self.depth = depth
         self.entry_env = dict(self.env)
         self.raised = False
+        self.broke = False          # the path left the enclosing loop through `break`
+        self.continued = False
         self.appends = None
         self.flats = None
+        self.at = None
+        self.parent = None          # the evaluator of the calling function
 
     def child(self):
         c = Ev(self.W, env=dict(self.env), fnode=self.fnode, depth=self.depth)
         c.entry_env = self.entry_env
+        c.at = self.at
+        c.parent = self.parent
         return c
+
+    def frames(self):
+        """(function, environment at its entry) from this evaluation outwards through the calls that led here"""
+        out, e = [], self
+        while e is not None:
+            if e.fnode is not None and isinstance(e.fnode, (ast.FunctionDef, ast.AsyncFunctionDef)) and not any(f is e.fnode for f, _ in out):
+                out.append((e.fnode, e.entry_env))
+            e = e.parent
+        return out
 
     def args(self, node):
         pos = []
@@ -449,6 +766,17 @@ class Ev(AutoEvaluator):
     def _ev(self, node):
         if isinstance(node, ast.Name) and node.id not in self.env and node.id in self.W.modenv:
             return self.W.modenv[node.id]
+        if isinstance(node, ast.Constant) and isinstance(node.value, float):
+            # a constant computed once and pasted in as a literal: the double nearest to a closed form is that closed form
+            for x, make in PASTED:
+                if node.value == x:
+                    return make()
+        if isinstance(node, (ast.Name, ast.Attribute)):
+            d = dotted(node)
+            if d is not None and d.split(".")[0] not in self.env:
+                full = resolve(d, self.W.tab)
+                if full in NAMED_CONSTS:
+                    return NAMED_CONSTS[full]()
         if isinstance(node, ast.Lambda):
             return self.W.register(node, self, "lambda")
         if isinstance(node, (ast.ListComp, ast.GeneratorExp)):
@@ -459,36 +787,56 @@ class Ev(AutoEvaluator):
         r = self.W.call(node, self)
         if r is not NotImplemented:
             return r
+        # a call the evaluator has no model of may write into a new array it is handed (np.put(X, ..), X.fill(..)): contents unknown from here on
+        for a in list(node.args) + ([node.func.value] if isinstance(node.func, ast.Attribute) else []):
+            if isinstance(a, ast.Name) and a.id in self.env:
+                v = self.env[a.id]
+                buf = symname(v) if is_buffer(v) else flat_view_of(v)
+                if buf is not None and not (isinstance(node.func, ast.Attribute) and node.func.attr in READ_ONLY_METHODS):
+                    self._fill(buf, Unknown(f"{a.id}: written by {ast.unparse(node.func)}(...)"))
         return super()._call(node)
 
-    def _operands(self, it):
-        """value of an iterable -> (broadcast operands, enumerated?)"""
-        u = unfn(it)
-        if u and u[0] == "broadcast":
-            return u[1], False
-        if u and u[0] == "enumerate" and len(u[1]) == 1:
-            u2 = unfn(u[1][0])
-            if u2 and u2[0] == "broadcast":
-                return u2[1], True
-        return None, False
-
-    def _bind_element(self, target, ops, enumerated, st):
-        if enumerated:
-            if not (isinstance(target, (ast.Tuple, ast.List)) and len(target.elts) == 2):
-                raise Unsupported("enumerate target")
-            self._assign(target.elts[0], F.sym("<i>"), st)
-            target = target.elts[1]
-        self._assign(target, tuple(ops), st)
+    def _not_followed(self, st):
+        """a loop / branch whose body is not executed: a new array that is stored into in there has unknown contents afterwards (never "still empty")"""
+        for x in ast.walk(st):
+            tgt = None
+            if isinstance(x, (ast.Subscript, ast.Attribute)) and isinstance(x.ctx, ast.Store):
+                tgt = x.value
+                while isinstance(tgt, (ast.Subscript, ast.Attribute)):
+                    tgt = tgt.value
+            elif isinstance(x, ast.Call):
+                for a in list(x.args) + ([x.func.value] if isinstance(x.func, ast.Attribute) else []):
+                    if isinstance(a, ast.Name) and a.id in self.env and not (isinstance(x.func, ast.Attribute) and x.func.attr in READ_ONLY_METHODS):
+                        v = self.env[a.id]
+                        buf = symname(v) if is_buffer(v) else flat_view_of(v)
+                        if buf is not None:
+                            self._fill(buf, Unknown(f"{a.id}: passed to {ast.unparse(x.func)}(...) inside a {type(st).__name__} the checker does not follow"))
+            if isinstance(tgt, ast.Name) and tgt.id in self.env:
+                v = self.env[tgt.id]
+                buf = symname(v) if is_buffer(v) else flat_view_of(v)
+                if buf is not None:
+                    self._fill(buf, Unknown(f"{tgt.id}: stored into inside a {type(st).__name__} the checker does not follow"))
 
     def _comprehension(self, node):
         if len(node.generators) != 1 or node.generators[0].ifs or node.generators[0].is_async:
             return Unknown("comprehension shape")
         g = node.generators[0]
-        ops, enumerated = self._operands(self.ev(g.iter))
-        if ops is None:
+        it = self.ev(g.iter)
+        if isinstance(it, tuple):
+            # a literal sequence: element by element
+            out = []
+            for x in it:
+                c = self.child()
+                c._assign(g.target, x, node)
+                out.append(c.ev(node.elt))
+                if c.raised:
+                    self.raised = self.done = True
+            return tuple(out)
+        el = element(it)
+        if el is None:
             return Unknown(f"comprehension over {ast.unparse(g.iter)}: not the elements of np.broadcast(...)")
         c = self.child()
-        c._bind_element(g.target, ops, enumerated, node)
+        c._assign(g.target, el, node)
         v = c.ev(node.elt)
         if c.raised:
             self.raised = self.done = True
@@ -496,25 +844,40 @@ class Ev(AutoEvaluator):
             return v if is_unknown(v) else Unknown("tuple-valued comprehension element")
         return F.fn("each", v)
 
+    def _fill(self, buf, value):
+        """the new array `buf` now holds `value`: every name bound to it sees that"""
+        for k, v in list(self.env.items()):
+            if symname(v) == buf:
+                self.env[k] = value
+
     def _for_each(self, st):
-        ops, enumerated = self._operands(self.ev(st.iter))
-        if ops is None or st.orelse:
+        el = element(self.ev(st.iter))
+        if el is None or st.orelse:
             return False
-        self._bind_element(st.target, ops, enumerated, st)
+        self._assign(st.target, el, st)
+        # a hand-kept running index: a name that is 0 before the loop and stepped by one in each pass
+        idx = sorted(nm for nm in _assigned_names(ast.Module(body=st.body, type_ignores=[])) if const_value(self.env.get(nm)) == 0)
+        for nm in idx:
+            self.env[nm] = F.sym(INDEX)
         saved = self.appends, self.flats
         self.appends, self.flats = {}, {}
         self.run(st.body)
         apps, flats = self.appends, self.flats
         self.appends, self.flats = saved
-        top_calls = {id(s.value) for s in st.body if isinstance(s, ast.Expr)}
-        top_stmts = {id(s) for s in st.body}
+        if (self.broke or self.continued) and not self.returns and not self.raised:
+            self.broke = self.continued = self.done = False
+        counted = all(same(self.env.get(nm), F.sym(INDEX) + 1) for nm in idx)
+        for nm in idx:
+            self.env[nm] = Unknown(f"{nm}: number of elements")
+        if not counted:
+            # a name that looked like a running index is something else: what the stores were indexed with is unknown
+            flats = {buf: [(Unknown("index"), Unknown("index"), st)] for buf in flats}
         for name, vals in apps.items():
-            ok = len(vals) == 1 and id(vals[0][1]) in top_calls and rat(vals[0][0])
+            ok = len(vals) == 1 and rat(vals[0][0])
             self.env[name] = F.fn("each", vals[0][0]) if ok else Unknown(f"{name}.append inside the loop")
-        for name, vals in flats.items():
-            ok = len(vals) == 1 and id(vals[0][2]) in top_stmts and rat(vals[0][1]) and enumerated and same(vals[0][0], F.sym("<i>")) \
-                and (symname(self.env.get(name)) or "").startswith("<buffer@")
-            self.env[name] = F.fn("each", vals[0][1]) if ok else Unknown(f"{name}.flat[...] store inside the loop")
+        for buf, vals in flats.items():
+            ok = len(vals) == 1 and rat(vals[0][1]) and same(vals[0][0], F.sym(INDEX))
+            self._fill(buf, F.fn("each", vals[0][1]) if ok else Unknown(f"{buf}: element stores inside the loop"))
         return True
 
     def stmt(self, st):
@@ -526,24 +889,60 @@ class Ev(AutoEvaluator):
         if isinstance(st, ast.Raise):
             self.done = self.raised = True
             return
+        if isinstance(st, ast.Break):
+            self.done = self.broke = True
+            return
+        if isinstance(st, ast.Continue):
+            self.done = self.continued = True
+            return
+        if isinstance(st, ast.Match):
+            conv = self.W.match_if(st)
+            if conv is not None:
+                return self.stmt(conv)
+        if isinstance(st, ast.Try):
+            # the path on which nothing is raised
+            self.run(list(st.body) + list(st.orelse) + list(st.finalbody))
+            return
+        if isinstance(st, ast.With):
+            # a context manager does not change the values computed under it
+            for item in st.items:
+                v = self.ev(item.context_expr)
+                if item.optional_vars is not None:
+                    self._assign(item.optional_vars, v, st)
+            self.run(st.body)
+            return
         if isinstance(st, ast.For):
             try:
                 if self._for_each(st):
                     return
             except Unsupported:
                 pass
+        if isinstance(st, (ast.For, ast.While)) or (isinstance(st, ast.If) and not self.W.enumerating and self.W.decide_base(st.test, self) is None):
+            self._not_followed(st)
         return super().stmt(st)
 
     def _assign(self, target, v, st, aug=False):
-        if isinstance(target, ast.Attribute) and target.attr == "flat" and isinstance(target.value, ast.Name):
-            u = unfn(v)
-            is_buffer = (symname(self.env.get(target.value.id)) or "").startswith("<buffer@")
-            self.env[target.value.id] = v if (u and u[0] == "each" and is_buffer) else Unknown(f"{target.value.id}.flat = <not an element-wise list into a new array>")
-            return
-        if isinstance(target, ast.Subscript) and isinstance(target.value, ast.Attribute) and target.value.attr == "flat" \
-                and isinstance(target.value.value, ast.Name) and self.flats is not None:
-            self.flats.setdefault(target.value.value.id, []).append((self.ev(target.slice), v, st))
-            return
+        if isinstance(target, (ast.Attribute, ast.Subscript)):
+            whole = isinstance(target, ast.Attribute) and target.attr == "flat"
+            recv = self.ev(target.value)
+            buf = symname(recv) if is_buffer(recv) else flat_view_of(recv)
+            if isinstance(target, ast.Subscript) and buf is not None:
+                sl = target.slice
+                if isinstance(sl, ast.Constant) and sl.value is Ellipsis or isinstance(sl, ast.Slice) and sl.lower is None and sl.upper is None and sl.step is None:
+                    whole = True              # X[...] = values, X.flat[:] = values
+                elif flat_view_of(recv) is not None and self.flats is not None and not aug:
+                    self.flats.setdefault(buf, []).append((self.ev(sl), v, st))      # one element, by its flat index
+                    return
+                else:
+                    self._fill(buf, Unknown(f"store into {ast.unparse(target)}"))
+                    return
+            if whole:
+                if buf is None or flat_view_of(recv) is not None and isinstance(target, ast.Attribute):
+                    if isinstance(target.value, ast.Name):
+                        self.env[target.value.id] = Unknown(f"{ast.unparse(target)} = <not an element-wise list into a new array>")
+                    return
+                self._fill(buf, v if element(v) is not None and rat(element(v)) and not aug else Unknown(f"{ast.unparse(target)} = <not an element-wise list into a new array>"))
+                return
         return super()._assign(target, v, st, aug)
 
 
@@ -621,6 +1020,18 @@ def literals(v, truth=True):
     return [[("other", v, truth)]]
 
 
+def const_truth(v):
+    """truth of a comparison of two constants (a limit test whose counter is never stepped: `0 < 30`), else None"""
+    u = unfn(v) if rat(v) else None
+    if u and u[0].startswith("cmp:") and len(u[1]) == 2 and all(isinstance(a, F.Rat) and a.is_const() for a in u[1]):
+        a, b = (Fraction(x.const_value()) for x in u[1])
+        op = u[0][4:]
+        return {"Lt": a < b, "LtE": a <= b, "Gt": a > b, "GtE": a >= b, "Eq": a == b, "NotEq": a != b}.get(op)
+    if rat(v) and v.is_const():
+        return v.const_value() != 0
+    return None
+
+
 def flip(rel):
     return "ge0" if rel == "le0" else "le0"
 
@@ -662,22 +1073,48 @@ class Bracket:
         self.counters = self._counter_names(holder)
         self.counter_syms = set()
         self.probes = {}         # id(call node) -> (node, result value, first argument value)
+        self.ret_frames = []     # returns met while a helper's body is executed: [(state, value)]
+        self.desugared = {}
+        self.loop_floor = []     # number of join symbols made before the loops being executed were entered
+        self.given = {a.arg for a in ast.walk(W.mod.tree) if isinstance(a, ast.arg)}       # parameter names: values handed in from outside
         self.entry = State(entry_env)
 
-    @staticmethod
-    def _counter_names(holder):
-        """names that are only ever set to a constant, stepped by a constant or bound by `for .. in range(..)`"""
+    def _counter_names(self, holder):
+        """names that are only ever set to a constant, stepped by a constant (`k += 1`, `k = k + 1`, `k = 1 + k`: decided on the value) or bound
+        by `for .. in range(..)`; a tuple assignment counts component by component"""
         ok, bad = set(), set()
+
+        def one(target, value):
+            if isinstance(target, (ast.Tuple, ast.List)):
+                if isinstance(value, (ast.Tuple, ast.List)) and len(value.elts) == len(target.elts) \
+                        and not any(isinstance(x, ast.Starred) for x in list(target.elts) + list(value.elts)):
+                    for t, v in zip(target.elts, value.elts):
+                        one(t, v)
+                else:
+                    bad.update(x.id for x in ast.walk(target) if isinstance(x, ast.Name))
+                return
+            if not isinstance(target, ast.Name):
+                return
+            nm = target.id
+            try:
+                v = Ev(self.W, env={nm: F.sym(nm)}).ev(value) if value is not None else None
+                steps = rat(v) and not opaque_calls(v) and (v.is_const() or (v - F.sym(nm)).is_const())
+            except Unsupported:
+                steps = False
+            (ok if steps else bad).add(nm)
+
         for n in walk_no_nested(holder):
             if isinstance(n, ast.Assign):
                 for t in n.targets:
-                    for x in ast.walk(t):
-                        if isinstance(x, ast.Name):
-                            (ok if (len(n.targets) == 1 and isinstance(t, ast.Name) and isinstance(n.value, ast.Constant)) else bad).add(x.id)
+                    one(t, n.value)
+            elif isinstance(n, ast.AnnAssign) and n.value is not None:
+                one(n.target, n.value)
+            elif isinstance(n, ast.NamedExpr):
+                one(n.target, n.value)
             elif isinstance(n, ast.AugAssign) and isinstance(n.target, ast.Name):
-                (ok if isinstance(n.value, ast.Constant) else bad).add(n.target.id)
+                one(n.target, ast.BinOp(left=ast.Name(id=n.target.id, ctx=ast.Load()), op=n.op, right=n.value))
             elif isinstance(n, ast.For):
-                is_range = isinstance(n.iter, ast.Call) and dotted(n.iter.func) == "range"
+                is_range = isinstance(n.iter, ast.Call) and resolve(dotted(n.iter.func), self.W.tab) == "range"
                 for x in ast.walk(n.target):
                     if isinstance(x, ast.Name):
                         (ok if is_range and isinstance(n.target, ast.Name) else bad).add(x.id)
@@ -706,12 +1143,21 @@ class Bracket:
         return None
 
     def is_counter_value(self, v):
-        return rat(v) and symbols(v) <= self.counter_syms and not opaque_calls(v)
+        """a value that only counts passes: built from loop counters and from names no loop changes (a limit passed in as a parameter)"""
+        if not rat(v) or any(d[0] == "fn" and not d[1].startswith(("cmp:", "bool:", "not")) for d in walk_atoms(v)):
+            return False
+        syms = symbols(v)
+        floor = self.loop_floor[0] if self.loop_floor else self.fresh
+        fixed = {x for x in syms if "@" not in x or ("@J" in x and int(x.rsplit("@J", 1)[1]) <= floor)}
+        # what does not change must be something the function was handed (a parameter); an unbound name is not a limit
+        return bool(syms & self.counter_syms) and (syms - fixed) <= self.counter_syms and {x for x in fixed if "@" not in x} <= self.given
 
     def assume(self, st, value, truth):
         """-> [(facts, counter_only)] one entry per alternative under which `value` has the truth value `truth`"""
         out = []
         for alt in literals(value, truth):
+            if any(lit[0] == "other" and const_truth(lit[1]) is not None and const_truth(lit[1]) != lit[2] for lit in alt):
+                continue          # this way of meeting the test asks a constant comparison to come out the other way: it cannot happen
             facts, counter_only = [], True
             for lit in alt:
                 if lit[0] == "rel":
@@ -727,6 +1173,8 @@ class Bracket:
         return out
 
     def narrowed(self, st, alts, exit_only):
+        if not alts:
+            return None           # no way to get here
         s = st.copy()
         use = alts
         if exit_only:
@@ -833,10 +1281,48 @@ class Bracket:
             return None
         if isinstance(s, ast.Raise):
             return None
+        if isinstance(s, ast.Match):
+            conv = self.W.match_if(s)
+            if conv is not None:
+                return self.stmt(conv, st)
+        if isinstance(s, ast.With):
+            return self.block(s.body, st)
+        if isinstance(s, ast.Try):
+            return self.block(list(s.body) + list(s.orelse) + list(s.finalbody), st)
+        if isinstance(s, (ast.Return, ast.Assign, ast.AnnAssign, ast.Expr)) and isinstance(s.value, ast.IfExp):
+            # `x = A if T else B` is `if T: x = A` / `else: x = B`
+            if id(s) not in self.desugared:
+                arms = []
+                for v in (s.value.body, s.value.orelse):
+                    c = copy.copy(s)
+                    c.value = v
+                    arms.append(c)
+                self.desugared[id(s)] = (ast.copy_location(ast.If(test=s.value.test, body=[arms[0]], orelse=[arms[1]]), s), s)
+            return self.stmt(self.desugared[id(s)][0], st)
         if not isinstance(s, (ast.FunctionDef, ast.AsyncFunctionDef, ast.ClassDef)) and any(x is self.rec["node"] for x in ast.walk(s)):
             self.observe(s, st)
         if isinstance(s, ast.Return):
+            if self.ret_frames and s.value is not None:
+                out = self.through_helper(s, st)
+                for rs, v in (out if out is not None else [(st, self.value(st, s.value))]):
+                    self.ret_frames[-1].append((rs, v))
+            elif self.ret_frames:
+                self.ret_frames[-1].append((st, F.sym("None")))
+            else:
+                self.through_helper(s, st)          # `return helper(...)`: what happens inside is part of this execution
             return None
+        out = self.through_helper(s, st)
+        if out is not None:
+            states = []
+            for rs, v in out:
+                e = self.ev(State(st.env))
+                for t in (s.targets if isinstance(s, ast.Assign) else [s.target] if isinstance(s, ast.AnnAssign) else []):
+                    e._assign(t, v, s)
+                ns = State(e.env, rs.facts, st.defs)
+                for nm in _assigned_names(s):
+                    ns.defs[nm] = frozenset([s])
+                states.append(ns)
+            return self.join(states)
         e = self.ev(st)
         na = len(self.W.apps)
         e.stmt(s)
@@ -849,6 +1335,44 @@ class Bracket:
         if isinstance(s, (ast.FunctionDef, ast.AsyncFunctionDef)):
             out.defs[s.name] = frozenset([s])
         return out
+
+    def through_helper(self, s, st):
+        """`x = helper(...)` / `return helper(...)` where the helper is a function of the module (or a local one) with tests or loops of its own:
+        the helper's body is executed abstractly too, so a bracket search that was moved into a helper establishes the same sign facts.
+        -> [(state at a return of the helper, returned value)] or None when the statement is not of that form"""
+        call = s.value if isinstance(s, (ast.Assign, ast.AnnAssign, ast.Return, ast.Expr)) else None
+        if not isinstance(call, ast.Call) or len(self.ret_frames) >= 3:
+            return None
+        e = self.ev(st)
+        nm = self.W.callee_name(call.func, e)
+        f = self.W.function(nm)
+        if f is None or nm == self.rec["fname"] or not isinstance(f[0], (ast.FunctionDef, ast.AsyncFunctionDef)) or f[0] is self.holder:
+            return None
+        fnode = f[0]
+        if not any(isinstance(x, (ast.If, ast.While, ast.For, ast.Match, ast.IfExp)) for x in walk_no_nested(fnode)) \
+                and not any(x is self.rec["node"] for x in ast.walk(fnode)):
+            return None
+        try:
+            pos, kw = e.args(call)
+        except Unsupported:
+            return None
+        env = self.W.bind(fnode, f[1], pos, kw, nm)
+        if is_unknown(env):
+            return None
+        new = self._counter_names(fnode) - self.counters
+        self.counters |= new
+        saved = self.frames, self.holder
+        self.frames, self.holder = [], fnode
+        self.ret_frames.append([])
+        try:
+            end = self.block(fnode.body, State(env, st.facts, {}))
+        finally:
+            rets = self.ret_frames.pop()
+            self.frames, self.holder = saved
+            self.counters -= new
+        if end is not None:
+            rets.append((end, F.sym("None")))
+        return rets
 
     def observe(self, s, st):
         call = self.rec["node"]
@@ -910,7 +1434,7 @@ class Bracket:
             finally:
                 self.frames.pop()
             back = [e for e in [end] + frame["continues"] if e is not None]
-            return exits + frame["breaks"], back
+            return [e for e in exits + frame["breaks"] if e is not None], back
 
         def fixpoint(NF, blame):
             head_defs = {nm: set(st.defs.get(nm, ())) for nm in carried}
@@ -937,6 +1461,13 @@ class Bracket:
                 NF, head_defs, rel_ = keep, nd, keep_rel
             raise Unsupported("loop facts do not stabilise")
 
+        self.loop_floor.append(self.fresh)
+        try:
+            return self._loop_facts(s, st, carried, fixpoint)
+        finally:
+            self.loop_floor.pop()
+
+    def _loop_facts(self, s, st, carried, fixpoint):
         entry = {(nm, rel) for nm in carried for rel in RELS if st.has(st.env.get(nm), rel)}
         # what the loop body alone would maintain: a fact of that set which the entry lacks is lost because of the definitions reaching the loop
         nobs = len(self.observed)
